@@ -76,7 +76,13 @@ class Explorer:
                              % (len(ctx.choices), len(prefix)))
         return ctx
 
-    def explore(self, prefix=(), expect=(), used=0):
+    def explore(self, prefix=(), expect=(), used=None):
+        """`bound` and the values of `cost` may be ints or equal-length tuples
+        (independent budgets, e.g. (crashes, skips, clock jumps)); a cost of None
+        means 'alternative not explored at this point' (stated restriction)."""
+        bound = self.bound if isinstance(self.bound, tuple) else (self.bound,)
+        if used is None:
+            used = (0,) * len(bound)
         if self.max_executions is not None and self.executions >= self.max_executions:
             self.capped = True
             return
@@ -85,10 +91,14 @@ class Explorer:
         for i in range(len(prefix), len(pts)):
             arity, label = pts[i]
             for alt in range(1, arity):
-                c = used + self.cost(label, alt)
-                if c > self.bound:
+                c = self.cost(label, alt)
+                if c is None:
                     continue
-                self.explore(ch[:i] + [alt], pts[:i + 1], c)
+                c = c if isinstance(c, tuple) else (c,)
+                tot = tuple(u + x for u, x in zip(used, c))
+                if any(t > b for t, b in zip(tot, bound)):
+                    continue
+                self.explore(ch[:i] + [alt], pts[:i + 1], tot)
 
 
 def check_determinism(run, prefix=(), horizon=10000):
